@@ -16,22 +16,22 @@ def tasks(tier):
     q = tier == 'quick'
     out = []
     nshard = 4 if q else 12
-    per = 9 if q else 70
+    per = 16 if q else 130
     for i in range(nshard):
         out.append(Task('props.bounded_C16:drv_native', name='C16/bounded/native.%d' % i, tier=tier, shard=i,
                         ncase=per, timeout=1500))
-    nshard = 3 if q else 10
-    per = 7 if q else 50
+    nshard = 4 if q else 12
+    per = 5 if q else 50
     for i in range(nshard):
         out.append(Task('props.bounded_C16:drv_invariance', name='C16/bounded/invariance.%d' % i, tier=tier,
                         shard=i, ncase=per, timeout=1500))
-    nshard = 2 if q else 8
-    per = 8 if q else 60
+    nshard = 4 if q else 12
+    per = 6 if q else 50
     for i in range(nshard):
         out.append(Task('props.bounded_C16:drv_ancient', name='C16/bounded/ancient.%d' % i, tier=tier,
                         shard=i, ncase=per, timeout=1500))
     nshard = 4 if q else 10
-    per = 10 if q else 80
+    per = 12 if q else 80
     for i in range(nshard):
         out.append(Task('props.bounded_C16:drv_export', name='C16/bounded/export.%d' % i, tier=tier,
                         shard=i, ncase=per, timeout=1500))
@@ -43,7 +43,7 @@ def tasks(tier):
 # abstract random histories
 # ======================================================================================================
 BIG_NE = (1000.0, 7310.0, 250.0, 12300.0)
-SMALL_NE = (20.0, 50.0, 100.0)
+SMALL_NE = (20.0, 40.0, 64.0)
 
 
 class History:
@@ -84,7 +84,9 @@ def gen_history(rng, maxlive=5, nsteps=None, force=None, linear_ok=True, ne_choi
             if k >= 2:
                 choices += ['admix', 'admix']
         if k >= 2:
-            choices += ['pulse', 'pulse', 'extinct', 'merge']
+            choices += ['pulse', 'pulse', 'extinct']
+            if k + 1 <= maxlive:      # dadi builds the merged population as a new axis before the parents are removed
+                choices += ['merge']
         choices += ['successor']
         ev = rng.choice(choices)
         fz = {}
@@ -491,6 +493,7 @@ def _shard_rng(d, shard):
 
 
 def drv_native(tier, shard, ncase):
+    warnings.simplefilter('ignore')
     import numpy
     d = Driver('C16', 'native.%d' % shard,
                bound='%d random tree/admixture histories per shard (1-5 steps; split, branch, successor, admixture of 2-3 parents, '
@@ -589,6 +592,9 @@ def compare_with_native(d, key, info, call, H, samples, ns, pts, tol=1e-8, fail_
             fail_key = 'noncontiguous-phi-into-4D5D-kernel'
         elif has_frozen5_mismatch(ops):
             fail_key = 'frozen5-takes-frozen4-flag'
+        elif 'more than 5 demes' in extra.get('exception', ''):
+            # <= 5 contemporaneous demes at all times, but Demes.py adds the frozen branch / child before removing the parents
+            fail_key = 'transient-sixth-deme-at-merge'
         elif classify is not None:
             fail_key = classify(extra) or fail_key
     return d.case(key, ok, dict(info, **extra), fail_key=fail_key)
@@ -683,12 +689,13 @@ def demes_call(g, samples, ns, pts, **kw):
 
 
 def drv_invariance(tier, shard, ncase):
+    warnings.simplefilter('ignore')
     import numpy
     d = Driver('C16', 'invariance.%d' % shard,
-               bound='%d random histories per shard (as in native.*, <=4 live demes, contemporary or mixed ancient samples); '
+               bound='%d random histories per shard (as in native.*, <=4 live demes, contemporary or mixed ancient samples, <=4 axes in total); '
                      'graph in years with generation_time in {25, 29.5, 0.25}; sizes and times x c, rates / c, c in {2, 0.37, 3.3}; '
                      'every permutation (<=6) of the sampled demes; explicit Ne=c*N_root with theta=c; all vs the base spectrum, '
-                     'max|diff| <= 1e-9*max (permutation 1e-12; rescaling/explicit Ne with ancient samples 1e-5 because the frozen deme '
+                     'max|diff| <= 1e-9*max (permutation 1e-12; rescaling/explicit Ne with ancient samples 1e-3 (Ne 20-64 there) because the frozen deme '
                      'keeps the absolute size 1 and dadi picks its time step from it)' % ncase)
     rng = _shard_rng(d, shard)
     for ci in range(ncase):
@@ -697,11 +704,11 @@ def drv_invariance(tier, shard, ncase):
         # proportional to the smallest nu: keep Ne small there or a single case takes minutes
         H = gen_history(rng, maxlive=rng.choice([2, 3, 4]), ne_choices=SMALL_NE if mode == 'mixed' else BIG_NE)
         samples = pick_samples(rng, H, mode)
-        if maxlive_with(H, samples) > 5:
+        if maxlive_with(H, samples) > 4:      # (five axes with a frozen one cost minutes here: tiny time steps in 5-D)
             samples = pick_samples(rng, H, 'now')
         anc = any(t > 0 for (_, t) in samples)
         # with a frozen deme (absolute size 1) the time steps are not scale covariant: discretisation-level agreement only
-        stol = 1e-5 if anc else 1e-9
+        stol = 1e-3 if anc else 1e-9
         ns = [rng.choice([2, 3]) for _ in samples]
         pts = pts_for(min(5, maxlive_with(H, samples)))
         gd = render_demes(H)
@@ -713,28 +720,52 @@ def drv_invariance(tier, shard, ncase):
             # the base call itself failing is the business of native.* / ancient.*; nothing to compare here
             d.case(key0 + ('base',), True, dict(info, skipped='base call raised %r' % (e,)), nontrivial=False)
             continue
+        ops0 = native_ops(H, samples)[0]
+
+        def inv_check(key, fn, fail_key):
+            """fn() -> (ok, extra); a failure that disappears when reorder_pops returns contiguous arrays (or that involves the
+            frozen5 flag) is filed under that defect instead of under the invariance"""
+            try:
+                ok, extra = fn()
+            except Exception:
+                import traceback
+                ok, extra = False, dict(exception=traceback.format_exc()[-700:])
+            if not ok:
+                try:
+                    with contiguous_reorder():
+                        ok2, _ = fn(rebase=True)
+                except Exception:
+                    ok2 = False
+                if ok2:
+                    fail_key = 'noncontiguous-phi-into-4D5D-kernel'
+                elif has_frozen5_mismatch(ops0):
+                    fail_key = 'frozen5-takes-frozen4-flag'
+            d.case(key, ok, dict(info, **extra), fail_key=fail_key)
+
+        def ref(rebase):
+            return demes_call(resolve(gd), samples, ns, pts) if rebase else base
         gt = rng.choice([25.0, 29.5, 0.25])
 
-        def years():
+        def years(rebase=False):
             g2 = resolve(scale_graph(gd, tfac=gt, units='years', gen_time=gt))
             got = demes_call(g2, [(n, t * gt) for (n, t) in samples], ns, pts)
-            e = relerr(got, base)
+            e = relerr(got, ref(rebase))
             return e <= 1e-9, dict(rel_err=e, generation_time=gt)
-        d.check(key0 + ('years', gt), years, info, fail_key='time-units')
+        inv_check(key0 + ('years', gt), years, 'time-units')
         c = rng.choice([2.0, 0.37, 3.3])
 
-        def rescale():
+        def rescale(rebase=False):
             g2 = resolve(scale_graph(gd, tfac=c, sfac=c))
             got = demes_call(g2, [(n, t * c) for (n, t) in samples], ns, pts)
-            e = relerr(got, base)
+            e = relerr(got, ref(rebase))
             return e <= stol, dict(rel_err=e, c=c, tol=stol)
-        d.check(key0 + ('rescale', c), rescale, info, fail_key='reference-size-rescaling')
+        inv_check(key0 + ('rescale', c), rescale, 'reference-size-rescaling')
 
-        def explicit_ne():
+        def explicit_ne(rebase=False):
             got = demes_call(resolve(gd), samples, ns, pts, Ne=c * H.Ne, theta=c)
-            e = relerr(got, base)
+            e = relerr(got, ref(rebase))
             return e <= stol, dict(rel_err=e, c=c, Ne=c * H.Ne, theta=c, tol=stol)
-        d.check(key0 + ('Ne', c), explicit_ne, info, fail_key='explicit-Ne-root-equilibrium')
+        inv_check(key0 + ('Ne', c), explicit_ne, 'explicit-Ne-root-equilibrium')
         perms = list(itertools.permutations(range(len(samples))))[1:]
         rng.shuffle(perms)
         for pm in perms[:5]:
@@ -771,7 +802,7 @@ def classify_ancient(H, samples, extra):
     except Exception:
         return None
     for s, st in enumerate(H.steps):
-        if tb[s + 1] < tmin < tb[s]:
+        if tb[s + 1] <= tmin < tb[s]:
             for n, (kind, N0, N1) in st['sizes'].items():
                 want = nu_value(kind, N0, N1, 1.0, (tb[s] - tmin) / (tb[s] - tb[s + 1]))
                 if n in g2 and abs(g2[n].epochs[-1].end_size - want) > 1e-9 * want:
@@ -780,6 +811,7 @@ def classify_ancient(H, samples, extra):
 
 
 def drv_ancient(tier, shard, ncase):
+    warnings.simplefilter('ignore')
     d = Driver('C16', 'ancient.%d' % shard,
                bound='%d random histories per shard (as in native.*), sample_times with 1-2 ancient samples next to contemporary ones '
                      '(inside an epoch, on an epoch boundary, at the end of an extinct deme, same deme twice) or all samples ancient '
@@ -879,8 +911,7 @@ def gen_program(rng, maxd, admix=True):
         elif c == 'remove':
             ops.append(('remove', rng.randrange(nd)))
             nd -= 1
-            if rng.random() < 0.7:
-                integ()
+            integ()      # (a removal directly followed by a split is re-imported as split-then-marginalise: other discretisation)
         elif c == 'reorder':
             perm = list(range(1, nd + 1))
             while perm == list(range(1, nd + 1)):
@@ -933,19 +964,41 @@ def export_fail_key(ops, exc, mismatch):
 
 
 def drv_export(tier, shard, ncase):
+    warnings.simplefilter('ignore')
     import numpy
     d = Driver('C16', 'export.%d' % shard,
-               bound='%d random dadi programs per shard: phi_1D(nu in {1,1,2,0.5}) then 1-6 of {new population by split or 2-3-way '
+               bound='%d random dadi programs per shard (shard 0 also one fixed program per pulse destination among 2-5 populations): phi_1D(nu in {1,1,2,0.5}) then 1-6 of {new population by split or 2-3-way '
                      'admixture, pulse from 1-2 sources (2-D..5-D, every destination), remove_pop, reorder_pops}, each new population/'
-                     'pulse followed by an integration (constant/exponential/linear sizes, random migration), 1-5 populations; '
+                     'pulse/removal followed by an integration (constant/exponential/linear sizes, random migration), 1-5 populations; '
                      'Demes.output(Nref in {1000,7310,123.5}, generation_time in {None,25,29.5}) re-imported by Demes.SFS(theta=nu_root) '
                      'at the same pts (14/12/10/8 by dimension) vs the program spectrum: max|diff| <= 1e-7*max, or 2e-3*max when the '
                      'program reorders populations (the re-import integrates the axes in another order: splitting error)' % ncase)
     import dadi
     rng = _shard_rng(d, shard)
-    for ci in range(ncase):
+    fixed = []
+    if shard == 0:
+        # every destination of a pulse among 2..5 populations (populations made by successive splits of population 1)
+        for k in range(2, 6):
+            for dest in range(k):
+                fops = []
+                for n in range(1, k):
+                    fops.append(('new', [1.0] + [0.0] * (n - 1)))
+                    T = {2: 0.05, 3: 0.04, 4: 0.02, 5: 0.008}[n + 1]
+                    fops.append(('int', T, [('constant', 0.6 + 0.4 * i, 0.6 + 0.4 * i) for i in range(n + 1)],
+                                 [[0.0] * (n + 1) for _ in range(n + 1)], [False] * (n + 1)))
+                src = [i for i in range(k) if i != dest][:2]
+                pr = [0.0] * k
+                for i, f in zip(src, (0.3, 0.2)):
+                    pr[i] = f
+                fops.append(('pulse', dest, pr))
+                fops.append(fops[-2])
+                fixed.append((fops, k))
+    for ci in range(ncase + len(fixed)):
         maxd = 5 if ci % 4 == 0 else rng.choice([2, 3, 4])
-        ops, nd = gen_program(rng, maxd, admix=(ci % 3 == 2))
+        if ci >= ncase:
+            ops, nd = fixed[ci - ncase]
+        else:
+            ops, nd = gen_program(rng, maxd, admix=(ci % 3 == 2))
         peak, n = 1, 1
         for op in ops:
             n += (op[0] == 'new') - (op[0] == 'remove')
@@ -999,6 +1052,7 @@ def drv_export(tier, shard, ncase):
 # task: deterministic shapes the random generators reach rarely
 # ======================================================================================================
 def drv_fixed(tier):
+    warnings.simplefilter('ignore')
     import os, tempfile, shutil
     import numpy
     import dadi, demes
